@@ -1408,7 +1408,15 @@ fn remove_unneeded_mode_changes(raw_braille: &str, start_mode: UEB_Mode, start_d
                             i += 1;
                         } else {
                             let is_greek = chars[i+1] == 'G';
-                            let (is_alone, right_matched_chars, n_letters) = stands_alone(&chars, if is_greek {i+2} else {i+1});
+                            let i_letter = if is_greek {i+2} else {i+1};
+                            if i_letter >= chars.len() || chars[i_letter] != 'L' {
+                                // the capital indicator isn't directly followed by the letter (e.g., a typeform indicator such as that of '𝘼' is in between)
+                                // -- there is no letter here to check for "standing alone", so treat it like any other char
+                                result.push(ch);
+                                i += 1;
+                                continue;
+                            }
+                            let (is_alone, right_matched_chars, n_letters) = stands_alone(&chars, i_letter);
                             // GTM 1.2.1 says we only need to use G1 for single letters or sequences that are a shortform (e.g, "ab")
                             if is_alone && (n_letters == 1 || is_short_form(&right_matched_chars[..2*n_letters])) {
                                 // debug!("  is_alone -- pushing '1'");
